@@ -27,6 +27,7 @@ import re
 from .. import copycontract
 from ..astutil import call_name, calls, dotted, names_in, param_names, stmts, walk_local
 from ..core import AnalysisError, Mutant
+from ..exprnorm import same_expr
 from ..program import ClassIndex
 
 EXPLANATION = (
@@ -192,7 +193,10 @@ def derived_from(func, var, src):
                 while isinstance(root, ast.Subscript):
                     root = root.value
                 if isinstance(root, ast.Name) and root.id == var:
-                    if src in names_in(st) :
+                    # the index itself (not an expression of it) selects the entry:  var[src] = ...  /  var = f(..., src, ...)
+                    direct = isinstance(t, ast.Subscript) and isinstance(t.slice, ast.Name) and t.slice.id == src
+                    as_arg = isinstance(st.value, ast.Call) and any(isinstance(a, ast.Name) and a.id == src for a in st.value.args)
+                    if direct or as_arg:
                         return True
     return False
 
@@ -325,10 +329,14 @@ def run(ctx):
     ctx.floor("axis-pairs", n_pair, 8)
     # in-place resize keeps the cached length
     de = s.func("_AtomArrayBase._del_element")
-    ctx.ob("R1.array-length", ATOMS, "_AtomArrayBase._del_element", "self._array_length updated",
-           any(isinstance(st, ast.Assign) and any(dotted(t) == "self._array_length" for t in st.targets)
-               for st in stmts(de)),
-           "atom deletion does not update the cached array length", de.lineno)
+    # ... with the new atom count: the atom axis of the resized coordinates (or old length - 1), set after the resize
+    al = [st for st in stmts(de) if isinstance(st, ast.Assign) and any(dotted(t) == "self._array_length" for t in st.targets)]
+    resize = [st for st in stmts(de) if isinstance(st, ast.Assign) and any(dotted(t) == "self._coord" for t in st.targets)]
+    ok_len = bool(al) and bool(resize) and all(
+        (same_expr(st.value, "self._coord.shape[-2]") and st.lineno > resize[0].lineno) or same_expr(st.value, "self._array_length - 1")
+        for st in al)
+    ctx.ob("R1.array-length", ATOMS, "_AtomArrayBase._del_element", "self._array_length = self._coord.shape[-2] (after the resize)", ok_len,
+           "atom deletion must set the cached array length to the new atom count", de.lineno)
     # concatenate / stack axes
     for qual, fname, field, want in (
         ("concatenate", "np.concatenate", "coord", -2),
@@ -511,7 +519,8 @@ MUTANTS = [
            "            if self.box is not None:\n                self.box[index] = array.box\n", "", "R1.model-axis"),
     Mutant("concat-last-box", ATOMS, "if element.box is not None and box is None:", "if element.box is not None:",
            "R1.concatenate-box"),
-    Mutant("del-element-bonds", ATOMS, "                mask[index] = False\n", "                mask[index - 1] = False\n", "R1.atom-axis") if False else
+    Mutant("del-element-bonds", ATOMS, "                mask[index] = False\n", "                mask[index - 1] = False\n", "R1.atom-axis"),
+    Mutant("del-element-length-off-by-one", ATOMS, "            self._array_length = self._coord.shape[-2]\n", "            self._array_length = self._coord.shape[-2] - 1\n", "R1.array-length"),
     Mutant("from-template-bonds", ATOMS,
            "    if template.bonds is not None:\n        new_stack.bonds = template.bonds.copy()\n", "", "R1.constructor"),
     Mutant("del-element-mask-compare", ATOMS,
